@@ -48,7 +48,8 @@ def spectrum():
         for ax in itertools.permutations(range(3), k): add([3,2,4], list(ax), "thorough")
     for ax in [[0,4],[4,2,0],[3,1]]: add([2,1,2,2,2], ax, "thorough")
     # four named axes out of five, unsorted (renumbering after two or more earlier removals), cheap unequal shape
-    for ax in [[0,1,4,3],[0,1,3,2],[4,3,1,0],[3,4,0,1],[1,0,3,4],[0,1,2,3],[2,4,1,3]]: add([2,1,2,1,3], ax, "quick")
+    for ax in [[0,1,4,3],[0,1,3,2],[4,3,1,0],[2,4,1,3]]: add([2,1,2,1,3], ax, "quick")
+    for ax in [[3,4,0,1],[1,0,3,4],[0,1,2,3]]: add([2,1,2,1,3], ax, "thorough")
     t = ""
     seen = set()
     for sh, ax, tier in cases:
